@@ -899,12 +899,16 @@ func (r *run) adversary() {
 		p1 := mk(1)
 		if r.rng.Intn(2) == 0 { // equivocate: two blocks for one view to different replicas
 			p2 := mk(2)
+			// the two audiences may overlap: a replica can be shown both blocks of the view
 			for i, n := range hon {
-				p := p1
-				if i%2 == r.rng.Intn(2) {
-					p = p2
+				switch c := r.rng.Intn(4); {
+				case c == 0:
+					msgs = append(msgs, envelope{from: id, to: n.ID, msg: p1}, envelope{from: id, to: n.ID, msg: p2})
+				case (c+i)%2 == 0:
+					msgs = append(msgs, envelope{from: id, to: n.ID, msg: p1})
+				default:
+					msgs = append(msgs, envelope{from: id, to: n.ID, msg: p2})
 				}
-				msgs = append(msgs, envelope{from: id, to: n.ID, msg: p})
 			}
 			r.logByz("equivocate", id, msgs)
 		} else {
